@@ -539,7 +539,20 @@ def judge_isolation(plan, result, refs=None):
         # confirm against the definitive reference: fresh modules from the real Grammar()
         dref = U.reference_outcome(chain, U.strip_nests(op), definitive=True)
         if dref['out'] == rec['out']:
-            env.count('fastref_disagreement')
+            # The simulated call agrees with a module built by Grammar() *now* but not with the
+            # module exec'ed from the source that an earlier, (nearly) pristine Grammar() call
+            # generated.  Either exec-of-emitted-source is not faithful (C11's business), or what
+            # Grammar() generates for this description depends on what was constructed before.
+            # The second is C18's: exonerate the first by exec'ing the source generated *now*.
+            eref = U.reference_outcome(chain, U.strip_nests(op), exec_now=True)
+            if eref['out'] != dref['out']:
+                env.count('fastref_disagreement')
+                continue
+            env.count('construction_history_dependence')
+            out.append({'check': 'isolation', 'sub': 'construction-history', 'where': where, 'op': U.strip_nests(op),
+                        'sim': rec['out'], 'ref': ref['out'],
+                        'note': 'the module Grammar() builds for this description now answers differently from '
+                                'the module built for the same description before other constructions ran'})
             continue
         out.append({'check': 'isolation', 'where': where, 'op': U.strip_nests(op),
                     'sim': rec['out'], 'ref': dref['out']})
